@@ -286,6 +286,14 @@ class Ev(object):
         return self.kind
 
 
+import operator as _opr
+_LIT_BINOPS = {ast.Add: _opr.add, ast.Sub: _opr.sub, ast.Mult: _opr.mul,
+               ast.FloorDiv: _opr.floordiv, ast.Mod: _opr.mod,
+               ast.Pow: _opr.pow, ast.LShift: _opr.lshift,
+               ast.RShift: _opr.rshift, ast.BitOr: _opr.or_,
+               ast.BitAnd: _opr.and_, ast.BitXor: _opr.xor}
+
+
 class St(object):
     __slots__ = ('frames', 'heap', 'conds', 'events', 'held', 'loops',
                  'outcome', 'try_depth', 'notes', 'cond_held', 'yielders')
@@ -1910,6 +1918,22 @@ class PathSum(object):
                     v[1], (int, float)):
                 return const(-v[1])
             return None
+        if isinstance(e, ast.BinOp) and type(e.op) in _LIT_BINOPS:
+            # arithmetic over integer constants (2 * VarInt.max_bytes)
+            a = self._literal(e.left, module, depth + 1)
+            b = self._literal(e.right, module, depth + 1)
+            if a is None or b is None or not (
+                    is_const(a) and is_const(b) and all(
+                        isinstance(x[1], int) and not isinstance(x[1], bool)
+                        for x in (a, b))):
+                return None
+            if isinstance(e.op, (ast.Pow, ast.LShift)) and not (
+                    0 <= b[1] <= 256):
+                return None
+            try:
+                return const(_LIT_BINOPS[type(e.op)](a[1], b[1]))
+            except (ZeroDivisionError, ValueError, OverflowError):
+                return None
         if isinstance(e, ast.Call) and isinstance(
                 e.func, (ast.Name, ast.Attribute)) and module is not None \
                 and len(e.args) >= 1 and not e.keywords and not any(
@@ -3017,6 +3041,20 @@ class PathSum(object):
         init = self.db.find_method(ci, '__init__')
         if init is None or init in self.opaque or init in self.stack or \
                 len(self.stack) > self.max_depth:
+            if init is None and self.db.find_method(ci, '__new__') is None \
+                    and self.nt_fields(ci) is not None and not any(
+                        x[0] == 'op' and x[1] == 'star' for x in args) \
+                    and '**' not in kwargs:
+                # a class over a namedtuple: the arguments are its fields
+                names = self.nt_fields(ci)
+                vals = dict(zip(names, args))
+                if len(args) <= len(names) and not (
+                        set(vals) & set(kwargs)) and \
+                        set(vals) | set(kwargs) == set(names):
+                    vals.update(kwargs)
+                    for k in names:
+                        st.heap[(o, k)] = vals[k]
+                    return [(st, o)]
             if init is None:
                 # external base: keep the constructor arguments
                 st.heap[(o, 'args')] = ('tuple', tuple(args))
